@@ -305,20 +305,9 @@ class EditStream(HTMLHandlerBase):
             params = flask.request.json
         else:
             params = flask.request.form
-        current_stream.title = params['title']
-        context = self.create_context(current_stream.title, False)
-        if models.MediaFile.count(stream=current_stream) == 0:
-            current_stream.directory = params['directory']
-        current_stream.marlin_la_url = str_or_none(params['marlin_la_url'])
-        current_stream.playready_la_url = str_or_none(params['playready_la_url'])
-        current_stream.timing_reference = None
-        timing_reference = params.get('timing_ref', '')
-        if timing_reference != '':
-            mf = models.MediaFile.get(name=Path(timing_reference).stem)
-            if not mf:
-                return flask.make_response(
-                    f'Invalid timing_reference "{html.escape(timing_reference)}"', 400)
-            current_stream.set_timing_reference(mf.as_stream_timing_reference())
+        context = self.create_context(params['title'], False)
+        # the CSRF check commits the database session, so it must happen
+        # before any of the submitted values are applied to the model
         try:
             self.check_csrf('streams', params)
         except (CsrfFailureException) as cfe:
@@ -332,6 +321,19 @@ class EditStream(HTMLHandlerBase):
                 streams=context['csrf_token'],
                 upload=None)
             return flask.render_template('media/stream.html', **context)
+        current_stream.title = params['title']
+        if models.MediaFile.count(stream=current_stream) == 0:
+            current_stream.directory = params['directory']
+        current_stream.marlin_la_url = str_or_none(params['marlin_la_url'])
+        current_stream.playready_la_url = str_or_none(params['playready_la_url'])
+        current_stream.timing_reference = None
+        timing_reference = params.get('timing_ref', '')
+        if timing_reference != '':
+            mf = models.MediaFile.get(name=Path(timing_reference).stem)
+            if not mf:
+                return flask.make_response(
+                    f'Invalid timing_reference "{html.escape(timing_reference)}"', 400)
+            current_stream.set_timing_reference(mf.as_stream_timing_reference())
         models.db.session.commit()
         if is_ajax():
             return jsonify(current_stream.toJSON())
